@@ -1,6 +1,7 @@
 package core
 
 import (
+	"bytes"
 	"fmt"
 	"sort"
 
@@ -20,16 +21,19 @@ type RecEvent struct {
 	StructOK   bool // a structural call made from inside the listener did NOT panic
 	StructTry  bool // whether such a call was attempted
 	ProbeError string
+	Vals       map[int][]byte // component values read inside the callback (non-removal events)
 }
 
 // Recorder is a listener that records every event. Subs/Comps configure what it subscribes
 // to (C12); the default is everything, unrestricted.
 type Recorder struct {
-	Subs     event.Subscription
-	Comps    *ecs.Mask
-	All      []RecEvent // everything since installation
-	Cur      []RecEvent // events of the current op
-	Probe    func(w *ecs.World, e ecs.EntityEvent) string
+	Subs  event.Subscription
+	Comps *ecs.Mask
+	All   []RecEvent // everything since installation
+	Cur   []RecEvent // events of the current op
+	Probe func(w *ecs.World, e ecs.EntityEvent) string
+	// ReadVals reads the entity's component values inside the callback (component index -> bytes).
+	ReadVals func(w *ecs.World, e ecs.Entity) map[int][]byte
 	TryWrite bool // attempt a structural call inside removal events
 }
 
@@ -46,6 +50,9 @@ func (r *Recorder) Notify(w *ecs.World, e ecs.EntityEvent) {
 	if e.NewRelation != nil {
 		v := *e.NewRelation
 		re.Evt.NewRelation = &v
+	}
+	if re.Alive && r.ReadVals != nil && !e.EventTypes.Contains(event.EntityRemoved) {
+		re.Vals = r.ReadVals(w, e.Entity)
 	}
 	if re.Alive {
 		re.Mask = w.Mask(e.Entity)
@@ -77,8 +84,55 @@ func (r *Recorder) Begin() { r.Cur = r.Cur[:0] }
 
 // InstallRecorder installs a recorder subscribed to everything.
 func (b *WB) InstallRecorder() {
-	b.Rec = &Recorder{Subs: event.All, TryWrite: true}
+	b.Rec = &Recorder{Subs: event.All, TryWrite: true, ReadVals: b.readVals}
 	b.W.SetListener(b.Rec)
+}
+
+// readVals reads every component value of an entity (masked field bytes), for use inside callbacks.
+func (b *WB) readVals(w *ecs.World, e ecs.Entity) map[int][]byte {
+	out := map[int][]byte{}
+	for c := 0; c < b.U.N(); c++ {
+		if p := w.Get(e, b.IDs[c]); p != nil {
+			s := b.U.Spec(c)
+			out[c] = s.Masked(s.ReadBytes(p))
+		}
+	}
+	return out
+}
+
+// checkDeliveryValues: an event (other than a removal) is delivered after the change, so a listener
+// that reads the entity inside the callback sees the values the operation gave it - the same
+// values the world reports when the call has returned (already compared with the model).
+func (s *Sim) checkDeliveryValues() {
+	if s.Done() || !s.Cfg.Owned[CatEventValues] {
+		return
+	}
+	for _, b := range s.Worlds() {
+		if b.Rec == nil {
+			continue
+		}
+		for i := range b.Rec.Cur {
+			g := &b.Rec.Cur[i]
+			if g.Vals == nil {
+				continue
+			}
+			ord, ok := b.Ord[g.Evt.Entity]
+			if !ok || ord >= len(s.M.Ents) || !s.M.Ents[ord].Alive {
+				continue
+			}
+			e := &s.M.Ents[ord]
+			for c, got := range g.Vals {
+				if !e.Has(c) {
+					continue
+				}
+				if !bytes.Equal(got, e.Vals[c]) {
+					s.Report(finding(CatEventValues, "%s: inside the listener callback (event types %06b) comp %d (%s) of #%d reads %x; the operation gave it %x (and that is what it reads after the call)", b.Name, g.Evt.EventTypes, c, b.U.Spec(c).Name, ord, got, e.Vals[c]))
+					return
+				}
+			}
+			s.Flag("events.valuesRead", 1)
+		}
+	}
 }
 
 // ExpectedEvent is what the documentation says the event of a change must carry.
@@ -172,6 +226,7 @@ type pendingEvent struct {
 // flushEvents compares the events of the op just executed with the model's changes.
 func (s *Sim) flushEvents() {
 	s.checkDeliveryLocks()
+	s.checkDeliveryValues()
 	pend := s.pendingEvents
 	s.pendingEvents = nil
 	if len(pend) == 0 || s.Done() {
